@@ -11,10 +11,11 @@ CONSTANTS
   JBoxes = {"none"}
   JunkNames = {"Junk"}
   QuarSet = {FALSE}
+  WatchSet = {FALSE, TRUE}
   EnvActs = {"Delete", "Login"}
   DelAccts = {"a", "b"}
   Faults = TRUE
-  Devs = {"CaseKey", "MapErrPerm", "BlobLeak"}
+  Devs = {"CaseKey", "MapErrPerm", "BlobLeak", "EarlyNotify"}
   Gen = FALSE
 CHECK_DEADLOCK FALSE
 POSTCONDITION Post
